@@ -173,7 +173,7 @@ def run(ctx):
                 if not ok:
                     r1.violate("C02|R1|%s|%s|catch-all-not-last" % (fn.def_, c), "%s tests the catch-all controller %s at position %d of %d: every later controller is unreachable" % (fn.def_, c, i + 1, len(order)), fn.file, fn.span["line"], fn.def_)
     # ---- R7: the controllers tested BEFORE the static-resource controller answer for fixed paths only; the chain ends in a catch-all
-    r5 = chk.rule("R7-fixed-path-controllers", "a controller that is tested before the static-resource controller matches only where an equality of the request path with a constant has succeeded (A13): it cannot answer for a file of the served directory; the last controller of the chain matches everything (a request nobody serves is answered 404 by it)", floor=12)
+    r5 = chk.rule("R7-fixed-path-controllers", "a controller that is tested before the static-resource controller matches only where an equality of the request path with a constant has succeeded (A13): it cannot answer for a file of the served directory; the last controller of the chain matches everything (a request nobody serves is answered 404 by it)", floor=6)
     from ..implies import true_implies_key_equality
     from ..taint import local_deps
     for fn in dispatchers:
